@@ -121,9 +121,39 @@ func runEngineA(cfg *RunConfig, rc *Recorder, res *Result) error {
 		SnapshotsRetain:  retain,
 		ShutdownOnRemove: true,
 	}
+	// a separate generator: the choices below must not shift the sequence
+	// the scenarios draw from
+	orng := rand.New(rand.NewSource(cfg.Seed ^ 0x0b7))
+	qw, snapEveryOff := 0, false
+	switch x := orng.Intn(100); {
+	case x < 55:
+	case x < 70:
+		qw = 3
+	case x < 85:
+		qw = 10
+	default:
+		qw = 60
+	}
+	if _, directed := scenarios[cfg.Scenario]; directed {
+		// directed scenarios count on an isolated leader stepping down
+		qw = 0
+		orng.Intn(100)
+		snapEveryOff = true
+	}
+	qw = cfg.paramInt("qw", qw)
+	snapEvery, snapThr := 0, 0
+	if x := orng.Intn(100); x < 25 && !snapEveryOff {
+		snapEvery, snapThr = 3+orng.Intn(10), 1+orng.Intn(30)
+	}
+	snapEvery = cfg.paramInt("snapevery", snapEvery)
+	if snapEvery > 0 {
+		opt.SnapshotInterval = time.Duration(snapEvery*hbMs) * time.Millisecond
+		opt.SnapshotThreshold = uint64(snapThr)
+	}
 	e.cl = newCluster(1, rc, e.pc, e.net, cfg.Scratch, opt, cfg.Seed^0xc1)
+	e.cl.quorumWait = time.Duration(qw*hbMs) * time.Millisecond
 	e.pc.onCrash = e.cl.onCrash
-	rc.emit(&ev.Rec{K: "params", Note: fmt.Sprintf("hb=%dms seg=%d retain=%d", hbMs, seg, retain)})
+	rc.emit(&ev.Rec{K: "params", Note: fmt.Sprintf("hb=%dms seg=%d retain=%d quorumwait=%dhb snapevery=%dhb snapthreshold=%d", hbMs, seg, retain, qw, snapEvery, snapThr)})
 
 	if fn, ok := scenarios[cfg.Scenario]; ok {
 		return fn(e)
